@@ -45,6 +45,7 @@ pub fn registry() -> Vec<Contract> {
     v.extend(crate::bitfield::verif_exec::contracts());
     v.extend(crate::oplog::verif_exec::contracts());
     v.extend(crate::verif_exec_e2e::contracts());
+    v.extend(crate::verif_exec_proofs::contracts());
     v
 }
 
@@ -208,8 +209,8 @@ impl RandomAccess for MemFile {
             self.tick()?;
             let d = self.disk.0.lock().unwrap();
             let f = &d.files[self.which];
-            if offset + length > f.len() as u64 {
-                return Err(RandomAccessError::OutOfBounds { offset, end: Some(offset + length), length: f.len() as u64 });
+            if offset.checked_add(length).map(|e| e > f.len() as u64).unwrap_or(true) {
+                return Err(RandomAccessError::OutOfBounds { offset, end: offset.checked_add(length), length: f.len() as u64 });
             }
             Ok(f[offset as usize..(offset + length) as usize].to_vec())
         })
